@@ -48,7 +48,7 @@ def run(ctx):
         ctx.error('C02.D2', 'decode cascade: %s' % e)
         return
     ctx.count('decode cascade entries', len(entries))
-    ctx.floor('decode cascade entries', len(entries), 20)
+    ctx.floor('decode cascade entries', len(entries), 16)
     ctx.count('decoder regexes', len([e for e in entries if e.pred == 'regex']))
     ctx.floor('decoder regexes', len([e for e in entries if e.pred == 'regex']), 8)
     _type_order(ctx, entries)
